@@ -9,6 +9,7 @@ import (
 func TestC15(t *testing.T) {
 	r := lib.Start("C15", "exploration")
 	col := newCollector()
+	raceBuild = r.Race
 
 	nSeq := r.N(3000, 200000)
 	r.Cases(nSeq, 0, func(idx int) {
